@@ -195,10 +195,10 @@ def diffusionTermPolar2D(D: FaceVariable) -> csr_array:
                             * DY[1:Ny+1][np.newaxis, :])
 
     # calculate the coefficients for the internal cells
-    AE = De #.ravel()
-    AW = Dw #.ravel()
-    AN = Dn #.ravel()
-    AS = Ds #.ravel()
+    AE = De.ravel()
+    AW = Dw.ravel()
+    AN = Dn.ravel()
+    AS = Ds.ravel()
     APx = -(AE+AW)
     APy = -(AN+AS)
 
@@ -210,8 +210,8 @@ def diffusionTermPolar2D(D: FaceVariable) -> csr_array:
     jjy = np.hstack([G[1:Nx+1, 0:Ny].ravel(),
                      G[1:Nx+1, 1:Ny+1].ravel(),
                      G[1:Nx+1, 2:Ny+2].ravel()])
-    sx = np.hstack([AW, APx, AE]).ravel()
-    sy = np.hstack([AS, APy, AN]).ravel()
+    sx = np.hstack([AW, APx, AE])
+    sy = np.hstack([AS, APy, AN])
 
     # build the sparse matrix
     kx = 3*mn
